@@ -19,6 +19,10 @@ int main(int argc, char** argv)
     add("C01", api::prop_c01, 3, 3, 260);
     add("C06", api::prop_c06, 4, 16, 260);
     add("C07", api::prop_c07, 2, 16, 12);
+    add("C07.enum3", api::prop_c07_enum<3>, 1, 1, 1);
+    specs.back().enum_total = api::c07_enum_total<3>();
+    add("C07.enum2", api::prop_c07_enum<2>, 1, 1, 1);
+    specs.back().enum_total = api::c07_enum_total<2>();
     add("C08", api::prop_c08, 3, 28, 12);
     add("C09", api::prop_c09, 3, 28, 12);
     add("C10", api::prop_c10, 3, 20, 260);
